@@ -5,7 +5,9 @@ Import ListNotations.
 Open Scope N_scope.
 
 Record wlist := { wl_from : N; wl_max : nat; wl_obs : option (list (N * string)) }.
-Record wcase := { wa_appends : list (N * string); wa_lists : list wlist }.
+Record wcase := { wa_appends : list (N * string);
+  wa_seconds : list N;      (* for each appended entry, by how many seconds the clock had been moved when it was appended *)
+  wa_lists : list wlist }.
 
 Definition entry_eqb (a b : N * string) : bool := (fst a =? fst b) && String.eqb (snd a) (snd b).
 Fixpoint entries_eqb (a b : list (N * string)) : bool :=
@@ -35,6 +37,10 @@ Definition spec_ok (c : wcase) : bool :=
   let apps := wa_appends c in
   (* unique tokens *)
   forallb (fun e => Nat.eqb (count_if (fun e' => fst e =? fst e') apps) 1) apps &&
+  (* a token issued after the clock was moved on by two seconds or more sorts after the earlier ones
+     (the runs themselves take well under a second) *)
+  (let timed := combine (map fst apps) (wa_seconds c) in
+   forallb (fun a => forallb (fun b => if snd a + 2 <=? snd b then fst a <? fst b else true) timed) timed) &&
   forallb (fun q =>
     match wl_obs q with
     | None => Nat.eqb (wl_max q) 0
